@@ -207,16 +207,6 @@ structure Failure where
 /-! ### Recorded deviations (findings/C13.txt). Each is a decidable predicate on what was observed; a failure
 that no clause explains stays a violation. -/
 
-def stripWS (s : String) : List Char := s.toList.filter (fun c => !(c = ' ' || c = '\n' || c = '\t' || c = '\r'))
-
-/-- `multiline-creep`: two successive passes differ in white space only (a line break after one more operator of
-a left-associative chain: BinaryNode.MultiLine is computed from the operator position of the left operand). -/
-def devMultilineCreep (f : Failure) : Bool :=
-  f.clause == "format-stable" &&
-  match f.prevText, f.gotText with
-  | some a, some b => stripWS a == stripWS b && a != b
-  | _, _ => false
-
 mutual
 def hasMinInt64 : T → Bool
   | .node "num" ["i", _, v] _ => v == "-9223372036854775808"
@@ -236,7 +226,6 @@ def devIntMin64 (f : Failure) : Bool :=
 
 def deviationOf (f : Failure) : Option String :=
   if devIntMin64 f then some "int-min64"
-  else if devMultilineCreep f then some "multiline-creep"
   else none
 
 /-- Runs the spec over a history. Returns the keys of the recorded deviations met (the history is then judged
